@@ -95,6 +95,7 @@ type Peer struct {
 	EstablishedAt []time.Duration
 
 	onUpdate func(p *Peer, c *Conn, u *Update, raw []byte)
+	OpenOverride *OpenSpec // OPEN to send instead of the configuration's (C22)
 }
 
 func (p *Peer) TCPAddr(port int) *net.TCPAddr {
@@ -124,6 +125,13 @@ func (p *Peer) attach(c *Conn) {
 	p.kaGen++
 	c.onData = p.onData
 	c.onClose = p.onDUTClose
+	c.onBreak = func(c *Conn) {
+		if c == p.conn {
+			p.state = psIdle
+			p.kaGen++
+			p.env.trace(fmt.Sprintf("%s broken", c.name))
+		}
+	}
 }
 
 func (p *Peer) onDUTClose(c *Conn) {
@@ -137,15 +145,23 @@ func (p *Peer) onDUTClose(c *Conn) {
 }
 
 func (p *Peer) openSpec() OpenSpec {
-	o := OpenSpec{AS: p.Cfg.AS, HoldTime: p.Cfg.PeerHold, ID: p.Cfg.ID, ASN4: p.Cfg.PeerASN4,
-		MPv4: p.Cfg.PeerMPv4, MPv6: p.Cfg.IPv6, Role: p.Cfg.PeerRole}
-	if p.Cfg.PeerAddPath != 0 {
+	if p.OpenOverride != nil {
+		return *p.OpenOverride
+	}
+	return openSpecFor(p.Cfg)
+}
+
+// openSpecFor is the OPEN a well-behaved peer with this configuration sends.
+func openSpecFor(c PeerCfg) OpenSpec {
+	o := OpenSpec{AS: c.AS, HoldTime: c.PeerHold, ID: c.ID, ASN4: c.PeerASN4,
+		MPv4: c.PeerMPv4, MPv6: c.IPv6, Role: c.PeerRole}
+	if c.PeerAddPath != 0 {
 		o.AddPath = map[uint16]uint8{}
-		if p.Cfg.IPv4 {
-			o.AddPath[1] = p.Cfg.PeerAddPath
+		if c.IPv4 {
+			o.AddPath[1] = c.PeerAddPath
 		}
-		if p.Cfg.IPv6 {
-			o.AddPath[2] = p.Cfg.PeerAddPath
+		if c.IPv6 {
+			o.AddPath[2] = c.PeerAddPath
 		}
 	}
 	return o
